@@ -224,6 +224,78 @@ def h_timestamp(env):
         env.check("witness:timestamp-json-round-trip", back.t == dt, repr(m.to_dict()))
 
 
+def _text(env, pieces):
+    """spec-side text: structured in the symbolic run, a plain string in the native run"""
+    if env.sym:
+        from ..symstr import SymText
+
+        return SymText(pieces)
+    out = []
+    for p in pieces:
+        if isinstance(p, str):
+            out.append(p)
+        elif p[0] == "num":
+            out.append(str(p[1]).zfill(p[2]) if p[2] else str(p[1]))
+        else:
+            out.append((_dt.datetime(1, 1, 1) + _dt.timedelta(microseconds=p[1])).isoformat())
+    return "".join(out)
+
+
+def h_timestamp_json(env):
+    """timestamp_to_json on every aware datetime: RFC 3339 UTC with 0, 3 or 6 fractional digits (isoformat of the whole-second part is an
+    opaque injective function; the choice of the fraction form and its digits are decided by the solver)"""
+    import betterproto
+
+    off = env.zint("offset_min", -1439, 1439)
+    us = env.zint("local_us", 0, MAX_US)
+    utc = us - off * 60 * US_PER_SEC
+    env.assume(sym.sym_and(utc >= 0, utc <= MAX_US))
+    dt = mk_datetime(env, us, off)
+    got = betterproto._Timestamp.timestamp_to_json(dt)
+    env.observe("json", got)
+    frac = utc % US_PER_SEC
+    whole = utc - frac
+    if frac == 0:
+        want = _text(env, [("iso", whole), "Z"])
+    elif frac % 1000 == 0:
+        want = _text(env, [("iso", whole), ".", ("num", frac // 1000, 3), "Z"])
+    else:
+        want = _text(env, [("iso", whole), ".", ("num", frac, 6), "Z"])
+    r = got == want
+    env.check("timestamp-json==rfc3339-utc", False if r is NotImplemented else r, "" if env.sym else "%r vs %r" % (got, want))
+    if not env.sym:
+        from google.protobuf import timestamp_pb2
+
+        ref = timestamp_pb2.Timestamp()
+        ref.FromDatetime(dt)
+        env.check("oracle:spec-text==reference-text", ref.ToJsonString() == want, "%r vs %r" % (ref.ToJsonString(), want))
+
+
+def h_duration_json(env):
+    """delta_to_json on every timedelta: sign, whole seconds, 3 or 6 fractional digits, 's'"""
+    import betterproto
+
+    us = env.zint("td_us", -DUR_MAX_US, DUR_MAX_US)
+    td = mk_timedelta(env, us)
+    got = betterproto._Duration.delta_to_json(td)
+    env.observe("json", got)
+    a = abs(us)
+    sign = "-" if us < 0 else ""
+    sec, frac = a // US_PER_SEC, a % US_PER_SEC
+    if frac % 1000 == 0:
+        want = _text(env, [sign, ("num", sec, 0), ".", ("num", frac // 1000, 3), "s"])
+    else:
+        want = _text(env, [sign, ("num", sec, 0), ".", ("num", frac, 6), "s"])
+    r = got == want
+    env.check("duration-json==decimal-seconds", False if r is NotImplemented else r, "" if env.sym else "%r vs %r" % (got, want))
+    if not env.sym:
+        from google.protobuf import duration_pb2
+
+        ref = duration_pb2.Duration()
+        ref.FromJsonString(want)
+        env.check("oracle:reference-reads-spec-text", ref.ToTimedelta() == td, want)
+
+
 BOUNDARY_TD = [0, 1, -1, 999999, 10**6, -(10**6), -1500000, 1500000, 2**53, 2**53 + 1, -(2**53) - 1, 69089390592999996, DUR_MAX_US, -DUR_MAX_US, DUR_MAX_US - 1, 1000, 123000, -123456,
                7, 50, 5000, -5000, 90000, 1001000, 10**6 + 1, -999999, 3600 * 10**6, 86400 * 10**6 + 10,
                # one representative per decimal digit class of the microsecond part (10**k, 9*10**k, mixed)
@@ -264,6 +336,8 @@ def units(tier):
         ("timestamp[utc]", h_timestamp, {"aware": False}),
         ("timestamp[boundaries]", h_timestamp_boundaries, {}),
         ("positions[repeated, optional, oneof, map value]", h_positions, {}),
+        ("timestamp-json[all instants, any offset]", h_timestamp_json, {}),
+        ("duration-json[all spans]", h_duration_json, {}),
     ]
 
 
